@@ -24,8 +24,8 @@ Inductive op :=
 | EqDict (l : list (K * V))          (* c == {plain dict}  (keys of l distinct) *)
 | EqSelf                             (* c == c *)
 | Copy                               (* c.copy(): observed as the copy's items in eviction order *)
-| Len                                (* len(c)    -- inherited from dict, takes no lock *)
-| Contains (k : K).                  (* k in c    -- inherited from dict, takes no lock *)
+| Len                                (* len(c) *)
+| Contains (k : K).                  (* k in c *)
 
 (* what an operation gives back to its thread *)
 Inductive rv :=
@@ -137,9 +137,12 @@ Definition meth_status (tb : lock_table) (c : kind) (m : meth) : status :=
 Definition wraps (tb : lock_table) (c : kind) (m : meth) : bool :=
   match meth_status tb c m with Whole => true | _ => false end.
 
-(* the methods whose atomicity C03 claims (anchors of the property + get, |=, copy) *)
+(* the methods whose atomicity C03 claims (anchors of the property + get, |=, copy, and the
+   readers len / in, which LRI overrides under the lock since the fix recorded in
+   known_findings.d/C03.json) *)
 Definition locked_meths : list meth :=
-  [MSetItem; MGetItem; MGet; MDelItem; MPop; MPopItem; MClear; MSetDefault; MUpdate; MIor; MEq; MCopy].
+  [MSetItem; MGetItem; MGet; MDelItem; MPop; MPopItem; MClear; MSetDefault; MUpdate; MIor; MEq; MCopy;
+   MLen; MContains].
 
 Definition meth_covered (tb : lock_table) (c : kind) (m : meth) : bool :=
   match meth_status tb c m, m with
